@@ -38,13 +38,14 @@ if common.REPO != '/repo':
 
 warnings.filterwarnings('ignore')
 
-PROP_MAIN = ['Lcapy/Props/C16.lean', 'Lcapy/Props/C16Pure.lean', 'Lcapy/Props/C16Tables.lean', 'Lcapy/Props/C16Full.lean',
-             'Lcapy/Props/C16Order.lean']
+PROP_MAIN = ['Lcapy/Props/C16.lean', 'Lcapy/Props/C16Pure.lean', 'Lcapy/Props/C16Sym.lean', 'Lcapy/Props/C16Tables.lean',
+             'Lcapy/Props/C16Full.lean', 'Lcapy/Props/C16Order.lean']
 # table checks that build iff the code is free of a recorded open finding: the exception branch of `add`
-PROP_CODE = ['Lcapy/Props/C16Atomic.lean']
+PROP_CODE = ['Lcapy/Props/C16Atomic.lean', 'Lcapy/Props/C16SymCode.lean']
 HELPERS = ['Lcapy/Model/Cache.lean', 'Lcapy/Model/CacheAux.lean', 'Lcapy/Spec/Cache.lean',
            'Lcapy/Proofs/CacheTab.lean', 'Lcapy/Proofs/CacheElts.lean', 'Lcapy/Proofs/CacheInv.lean',
            'Lcapy/Proofs/CacheIso.lean', 'Lcapy/Proofs/CachePure.lean', 'Lcapy/Proofs/CacheAux.lean', 'Lcapy/Driver/C16.lean',
+           'Lcapy/Model/SymReg.lean', 'Lcapy/Proofs/SymReg.lean',
            'Lcapy/Generated/Caches.lean']
 
 LIST_QUERIES = ['capacitors', 'inductors', 'voltage_sources', 'current_sources', 'reactances',
@@ -60,6 +61,9 @@ HEAVY_QUERIES = ['sim', 'transfer', 'state_space', 'thevenin']
 DERIVES = ['copy', 'kill', 'select', 'simplify', 'remove_dangling', 'subs']
 NODES = ['0', '1', '2', '3', '4', '5']
 SOLVE_TIMEOUT = 25.0
+GRAPH_ITEMS = ('is_connected', 'in_series', 'in_parallel', 'across_nodes', 'unreachable_nodes', 'ladder', 'loops', 'node_list')
+BATTERY_ITEM_TIMEOUT = 2.0
+LOOPS_MAX_ELEMENTS = 7
 # the name the model knows a harness query by (`loops` goes through the cached circuit graph)
 MODEL_QUERY = {'loops': 'cg'}
 # process-wide settings toggled (and toggled back) inside histories: name -> alternative value
@@ -122,6 +126,17 @@ class Real:
 
     MODEL_STRUCT = ('elts', 'counts', 'degs', 'unconn', 'dang')
 
+    def ladder_str(self, x):
+        """shape of a ladder network: class names and the first argument of every leaf (the netlist text writes default
+        arguments out, so the full argument tuples of an edited and of a re-parsed component differ in spelling only)"""
+        if x is None:
+            return 'None'
+        args = getattr(x, 'args', ())
+        sub = [self.ladder_str(a) for a in args if hasattr(a, 'args') and not hasattr(a, 'sympy')]
+        if sub:
+            return type(x).__name__ + '(' + ','.join(sub) + ')'
+        return type(x).__name__ + '(' + (str(args[0]) if args else '') + ')'
+
     def battery(self, c):
         """the FIXED battery of read-only observations made on the same instance after every query op; every item is
         evaluated twice in a row; none of them constructs a netlist (so the class-level caches stay as they are)"""
@@ -163,18 +178,35 @@ class Real:
         if nodes:
             items.append(('unreachable_nodes(%s)' % nodes[0], lambda: SS(c.unreachable_nodes(nodes[0]))))
         if pair and '0' in nodes:
-            items.append(('ladder(%s,0,%s,0)' % pair, lambda: S(c.ladder(pair[0], '0', pair[1], '0'))))
-        items += [('loops', lambda: SS(S(l) for l in c.cg.loops())),
-                  ('dependent_sources', lambda: S(c.dependent_sources)),
+            items.append(('ladder(%s,0,%s,0)' % pair, lambda: self.ladder_str(c.ladder(pair[0], '0', pair[1], '0'))))
+        if len(names) <= LOOPS_MAX_ELEMENTS:
+            # enumerating the simple cycles of the circuit graph is exponential in the number of branches
+            items.append(('loops', lambda: SS(S(l) for l in c.cg.loops())))
+        items += [('dependent_sources', lambda: S(c.dependent_sources)),
                   ('twoports', lambda: S(c.twoports))]
+        import signal
         out = []
-        for rnd in ('1', '2'):
-            for nm, f in items:
-                try:
-                    v = f()
-                except Exception as e:      # noqa
-                    v = 'error:' + type(e).__name__
-                out.append(('%s#%s=%s' % (nm, rnd, v)).replace(' ', ''))
+
+        def on_alarm(signum, frame):
+            raise Timeout()
+        oldh = signal.signal(signal.SIGALRM, on_alarm)
+        try:
+            for rnd in ('1', '2'):
+                for nm, f in items:
+                    if rnd == '2' and nm.split('(')[0] not in GRAPH_ITEMS:
+                        continue        # the second round repeats the graph-based (cached-object) queries only
+                    signal.setitimer(signal.ITIMER_REAL, BATTERY_ITEM_TIMEOUT, 0.25)
+                    try:
+                        v = f()
+                    except Timeout:
+                        v = 'timeout'
+                    except Exception as e:      # noqa
+                        v = 'error:' + type(e).__name__
+                    finally:
+                        signal.setitimer(signal.ITIMER_REAL, 0)
+                    out.append(('%s#%s=%s' % (nm, rnd, v)).replace(' ', ''))
+        finally:
+            signal.signal(signal.SIGALRM, oldh)
         return out
 
     def canon(self, x):
@@ -205,7 +237,7 @@ class Real:
         def on_alarm(signum, frame):
             raise Timeout()
         oldh = signal.signal(signal.SIGALRM, on_alarm)
-        signal.setitimer(signal.ITIMER_REAL, SOLVE_TIMEOUT)
+        signal.setitimer(signal.ITIMER_REAL, SOLVE_TIMEOUT, 1.0)
         try:
             return self.query1(c, q, arg)
         finally:
@@ -216,6 +248,8 @@ class Real:
         try:
             an = self.an
             if q == 'loops':
+                if len(c._elements) > LOOPS_MAX_ELEMENTS:
+                    return 'skipped:too-many-branches'
                 return self.canon(sorted(str(l) for l in c.cg.loops()))
             if q == 'unconnected_nodes':
                 return self.canon(sorted(c.unconnected_nodes()))
@@ -231,7 +265,7 @@ class Real:
             if q == 'unreachable_nodes':
                 return self.canon(sorted(c.unreachable_nodes(arg)))
             if q == 'ladder':
-                return an(str(c.ladder(arg[0], '0', arg[1], '0'))).replace(' ', '')
+                return self.ladder_str(c.ladder(arg[0], '0', arg[1], '0')).replace(' ', '')
             if q == 'thevenin':
                 th = c.thevenin(arg[0], arg[1])
                 S = self.sympy
@@ -343,6 +377,7 @@ class History:
         self.pending = []        # observations whose fresh-build comparison is deferred to the end of the history
         self.struct_flagged = {}  # instance -> taint under which a structural difference was already reported
         self.impure_flagged = set()
+        self.fresh_cache = {}         # observations of fresh rebuilds, by netlist text (a fresh rebuild is deterministic)
         self.setting_touched = None   # a process-wide setting was toggled (and toggled back) earlier in this history
         from lcapy import state as _st
         self.state = _st
@@ -430,7 +465,12 @@ class History:
 
     def finish_struct(self, p):
         i = p['i']
-        fresh = self.R.structural(self.R.fresh(p['text'], p['kind']))
+        ck = ('struct', p['text'], p['kind'])
+        if ck not in self.fresh_cache:
+            self.fresh_cache[ck] = self.R.structural(self.R.fresh(p['text'], p['kind']))
+        fresh = self.fresh_cache[ck]
+        if p['hist'] == fresh:
+            return
         if not self.spec_same(p['hist'], fresh) and self.struct_flagged.get(i) != p['taint']:
             self.struct_flagged[i] = p['taint']
             differs = [a.split('=')[0] for a, b in zip(p['hist'], fresh) if a != b]
@@ -440,7 +480,10 @@ class History:
 
     def finish_query(self, p):
         i, q, arg, got, trace_rec = p['i'], p['q'], p['arg'], p['hist'], p['trace']
-        want = self.R.query(self.R.fresh(p['text'], p['kind']), q, arg)
+        ck = ('query', p['text'], p['kind'], q, str(arg))
+        if ck not in self.fresh_cache:
+            self.fresh_cache[ck] = self.R.query(self.R.fresh(p['text'], p['kind']), q, arg)
+        want = self.fresh_cache[ck]
         if 'error:Timeout' in (got, want):
             self.chk.count('degenerate', 'solver-timeout')
             return
@@ -491,8 +534,17 @@ class History:
         """QUERY PURITY on the real code: the battery made on the instance right after a query op (each item twice)
         must equal the same battery on a circuit rebuilt from the netlist text"""
         i = p['i']
-        fresh = self.R.battery(self.R.fresh(p['text'], p['kind']))
+        ck = ('battery', p['text'], p['kind'])
+        if ck not in self.fresh_cache:
+            self.fresh_cache[ck] = self.R.battery(self.R.fresh(p['text'], p['kind']))
+        fresh = self.fresh_cache[ck]
         self.chk.count('battery', 'compared')
+        if len(fresh) == len(p['hist']) and any(a.endswith('=timeout') or b.endswith('=timeout') for a, b in zip(p['hist'], fresh)):
+            # a per-item time limit only counts, never alarms
+            self.chk.count('degenerate', 'battery-item-timeout')
+            keep = [k for k, (a, b) in enumerate(zip(p['hist'], fresh)) if not (a.endswith('=timeout') or b.endswith('=timeout'))]
+            p = dict(p, hist=[p['hist'][k] for k in keep])
+            fresh = [fresh[k] for k in keep]
         if self.spec_same(p['hist'], fresh):
             return
         bad = [(a, b) for a, b in zip(p['hist'], fresh) if a != b]
@@ -972,6 +1024,198 @@ def transform_case(chk, R, drv, rng, fixed=None, forward=False):
     return None
 
 
+# --------------------------------------------------------------------------- symbol registry and contexts
+
+SYM_KW = {'positive': {}, 'real': {'real': True}, 'complex': {'complex': True}}
+
+
+def sym_classify(x):
+    return 'positive' if x.is_positive else 'real' if x.is_real else 'complex' if x.is_complex else 'none'
+
+
+def sym_run(R, ops, names_map, cid):
+    """run symbol-machine ops on the real Lcapy; names are mapped through `names_map` (fresh names per run, the registry
+    is process wide); returns (answers of the uses, context current?, context stack depth)"""
+    from lcapy import expr, symbol, state
+    from lcapy.sym import symbol_delete
+    base = state.context
+    depth0 = len(state.previous_context)
+    ccts = {}
+    ans = []
+    ans_pos = []        # one entry per op processed so far (its length = index of the current op)
+    for op in ops:
+        k = op[0]
+        if k == 'declare':
+            symbol(names_map[op[1]], **SYM_KW[op[2]])
+        elif k == 'use':
+            e = expr(names_map[op[1]], **SYM_KW[op[2]])
+            fs = [x for x in e.sympy.free_symbols]
+            ans.append(sym_classify(fs[0]) if len(fs) == 1 else 'bad:%d' % len(fs))
+        elif k == 'delete':
+            try:
+                symbol_delete(names_map[op[1]])
+            except KeyError:
+                pass
+        elif k == 'add':
+            c = ccts.setdefault(op[1], R.lcapy.Circuit())
+            val = '*'.join(names_map[n] for n in op[2]) or '1'
+            cname = 'R%d' % (len(c._elements) + 1)
+            line = ('%s 1 0 {%s}' % (cname, val)) if op[3] else 'Isc 1 0 {%s}' % val
+            try:
+                c.add(line)
+                if not hasattr(c, '_c16_added'):
+                    c.__dict__['_c16_added'] = {}
+                c.__dict__['_c16_added'][cname] = (len(ans_pos), list(op[2]))
+            except Exception:       # noqa
+                pass
+        ans_pos.append(None)
+    cur_ok = state.context is base
+    depth = len(state.previous_context) - depth0
+    while len(state.previous_context) > depth0:
+        state.restore_context()
+    return ans, cur_ok, depth, ccts
+
+
+def sym_line(op):
+    if op[0] == 'add':
+        return 'add %d %s %s' % (op[1], ','.join(op[2]) or '-', 'ok' if op[3] else 'fail')
+    return ' '.join(str(x) for x in op)
+
+
+def symreg_case(chk, R, drv, rng, case_no, ops=None):
+    """two circuits and free-standing expressions sharing symbol NAMES with clashing assumptions, interleaved"""
+    names = ['a', 'b']
+    if ops is None:
+        ops = []
+        alive = set()
+        for _ in range(rng.randint(5, 12)):
+            r = rng.random()
+            n = rng.choice(names)
+            if r < 0.25:
+                ops.append(('declare', n, rng.choice(sorted(SYM_KW))))
+                alive.add(n)
+            elif r < 0.6:
+                ops.append(('use', n, rng.choice(sorted(SYM_KW))))
+            elif r < 0.72 and n in alive:
+                ops.append(('delete', n))
+                alive.discard(n)
+            else:
+                ns = sorted(set(rng.sample(names, rng.randint(1, 2))))
+                ops.append(('add', rng.choice([1, 2]), ns, rng.random() < 0.8))
+        # always finish with a use of each name
+        for n in names:
+            ops.append(('use', n, rng.choice(sorted(SYM_KW))))
+    chk.case(('symreg', case_no), True)
+    chk.count('symreg', 'case')
+    for o in ops:
+        chk.count('symreg-op', o[0] + ('' if o[0] != 'add' or o[3] else '-failing'))
+    nm = {n: 'q%dz%s' % (case_no, n) for n in names}
+    got, cur_ok, depth, ccts = sym_run(R, ops, nm, case_no)
+    line = ' ; '.join(sym_line(o) for o in ops)
+    m = dict(t.split('=') for t in drv.ask1('c16.sym ' + line).split())
+    want = [] if m['ans'] == '-' else m['ans'].split(',')
+    chk.coverage['correspondence']['compared'] += 1
+    found = []
+    replay = {'input': {'symops': [list(o) for o in ops]}, 'lcapy': got, 'model': want,
+              'spec': 'the answer of expr(name, **assumptions) after a history depends only on the operations on that name'}
+    deleted = any(o[0] == 'delete' for o in ops)
+    if got != want or (cur_ok, depth) != (m['cur'] == '0', int(m['depth'])):
+        chk.coverage['correspondence']['disagreements'] += 1
+        found.append(('disagree', {'what': 'symbol machine', 'model': m, 'lcapy': [got, cur_ok, depth], 'ops': line}))
+    if not cur_ok or depth != 0:
+        key = {'kind': 'context-leak', 'after': 'failed-add'}
+        chk.count('counterexample', json.dumps(key, sort_keys=True))
+        chk.counterexample(key, dict(replay, context_current=cur_ok, context_stack_depth=depth),
+                           'a history of add() calls left the symbol context switched')
+        found.append(('ce', key))
+    # ORACLE 1 (frame, on the real code): the operations that mention `a`, replayed alone under a fresh name, give the
+    # same answers as the uses of `a` inside the interleaved history
+    for n in names:
+        sub = [o for o in ops if (o[0] == 'add' and n in o[2]) or (o[0] != 'add' and o[1] == n)]
+        sub = [(o[0], o[1], [n], o[3]) if o[0] == 'add' else o for o in sub]
+        alone, _, _, _ = sym_run(R, sub, {n: 'q%dy%s' % (case_no, n)}, case_no)
+        k = 0
+        inter = []
+        for o in ops:
+            if o[0] == 'use':
+                if o[1] == n:
+                    inter.append(got[k])
+                k += 1
+        if drv.ask1('c16.same %s == %s' % (' '.join(inter) or '-', ' '.join(alone) or '-')) != 'true':
+            key = {'kind': 'symbol-registry', 'what': 'frame', 'after': 'symbol-delete' if deleted else 'clean'}
+            chk.count('counterexample', json.dumps(key, sort_keys=True))
+            chk.counterexample(key, dict(replay, name=n, interleaved=inter, alone=alone),
+                               'operations on other symbol names changed what a name means')
+            found.append(('ce', key))
+    # ORACLE 2 (Lean-evaluated characterisation on the real output): the last use of each name answers like a fresh
+    # process iff `freshLike` says so
+    k = len(got)
+    for idx in range(len(ops) - 1, -1, -1):
+        o = ops[idx]
+        if o[0] != 'use':
+            continue
+        k -= 1
+        if idx < len(ops) - len(names):
+            break
+        pred = drv.ask1('c16.symfresh %s %s ; %s' % (o[1], o[2], ' ; '.join(sym_line(x) for x in ops[:idx]))) == 'true'
+        chk.count('symreg-freshlike', str(pred))
+        if (got[k] == o[2]) != pred:
+            key = {'kind': 'symbol-registry', 'what': 'fresh-like', 'after': 'symbol-delete' if deleted else 'clean'}
+            chk.count('counterexample', json.dumps(key, sort_keys=True))
+            chk.counterexample(key, dict(replay, name=o[1], asked=o[2], answer=got[k], model_says_fresh_like=pred),
+                               'expr(name, **a) after this history is not what the documented first-declaration-wins rule gives')
+            found.append(('ce', key))
+    # ORACLE 3 (history independence where it is NOT documented to depend): after symbol_delete(n) the name must behave
+    # as in a fresh process -- two uses with different assumptions hand out ONE symbol (the first wins)
+    for n in names:
+        last_del = max([i for i, o in enumerate(ops) if o[0] == 'delete' and o[1] == n] or [-1])
+        if last_del < 0:
+            continue
+        tail = [o for o in ops[last_del + 1:] if (o[0] == 'add' and n in o[2]) or (o[0] != 'add' and o[1] == n)]
+        uses_after = [o for o in tail if o[0] == 'use']
+        if len(uses_after) < 1 or any(o[0] == 'declare' for o in tail):
+            continue
+        # answers of those uses in the interleaved run
+        k = 0
+        inter = []
+        for i, o in enumerate(ops):
+            if o[0] == 'use':
+                if o[1] == n and i > last_del:
+                    inter.append(got[k])
+                k += 1
+        sub = [(o[0], o[1], [n], o[3]) if o[0] == 'add' else o for o in tail]
+        fresh, _, _, _ = sym_run(R, sub, {n: 'q%dw%s' % (case_no, n)}, case_no)
+        chk.count('symreg', 'use-after-delete')
+        if drv.ask1('c16.same %s == %s' % (' '.join(inter), ' '.join(fresh))) != 'true':
+            key = {'kind': 'symbol-registry', 'what': 'use-after-delete', 'after': 'symbol-delete'}
+            chk.count('counterexample', json.dumps(key, sort_keys=True))
+            chk.counterexample(key, dict(replay, name=n, after_delete=inter, fresh_process=fresh),
+                               'after symbol_delete(name) the name does not behave as in a fresh process')
+            found.append(('ce', key))
+    # ORACLE 4: the circuits built along the way answer like circuits rebuilt from their netlist text
+    for cid, c in ccts.items():
+        f = R.fresh(R.text(c), c.kind)
+        for nme in c._elements:
+            a = sorted((str(x), sym_classify(x)) for x in c._elements[nme].cpt.R.sympy.free_symbols) if nme[0] == 'R' else []
+            b = sorted((str(x), sym_classify(x)) for x in f._elements[nme].cpt.R.sympy.free_symbols) if nme[0] == 'R' else []
+            idx, used = c.__dict__.get('_c16_added', {}).get(nme, (None, []))
+            if idx is None:
+                continue
+            # a later re-declaration / deletion of one of its symbols legitimately makes the rebuilt circuit differ (documented:
+            # one symbol per name, `symbol()` replaces it); the Lean predicate `stableOver` decides that
+            stable = drv.ask1('c16.symstable %s %s' % (','.join(used) or '-', ' ; '.join(sym_line(x) for x in ops[idx + 1:]) or 'leave')) == 'true'
+            chk.count('symreg-circuit', 'stable' if stable else 'legitimately-dependent')
+            if not stable:
+                continue
+            if a != b:
+                key = {'kind': 'symbol-registry', 'what': 'circuit-vs-fresh', 'after': 'symbol-delete' if deleted else 'clean'}
+                chk.count('counterexample', json.dumps(key, sort_keys=True))
+                chk.counterexample(key, dict(replay, circuit=cid, component=nme, lcapy=a, fresh=b),
+                                   'a component value of a circuit differs from the same in a circuit rebuilt from its netlist')
+                found.append(('ce', key))
+    return found
+
+
 # --------------------------------------------------------------------------- hash seeds
 
 HASH_HISTORIES = [
@@ -1138,10 +1382,16 @@ def run(chk, replay=None):
     # ---- 1. translator
     text, info = tx_caches.generate(common.REPO)
     gen_path = os.path.join(common.LEAN, 'Lcapy', 'Generated', 'Caches.lean')
-    with common.LakeLock():
-        if not os.path.exists(gen_path) or open(gen_path).read() != text:
-            with open(gen_path, 'w') as f:
-                f.write(text)
+    def ensure_generated():
+        """(re)write the generated file; True if it had to be written.  Seeded-change runs of other properties restore
+        every Generated/*.lean they saw change to their own backup, so the file can be replaced under our feet."""
+        with common.LakeLock():
+            if not os.path.exists(gen_path) or open(gen_path).read() != text:
+                with open(gen_path, 'w') as f:
+                    f.write(text)
+                return True
+        return False
+    ensure_generated()
     chk.coverage['translator'] = {'status': 'ok', 'memoised': info['memoised'], 'cleared': info['cleared'],
                                   'not_cleared': info['not_cleared'], 'mutators': info['mutators'],
                                   'overrideDetaches': info['overrideDetaches'], 'keepConnectedNode': info['keepConnectedNode'], 'initInvalidates': info['initInvalidates'],
@@ -1155,6 +1405,16 @@ def run(chk, replay=None):
     # ---- 2. proofs
     broken = chk.lean(PROP_MAIN, helper_files=HELPERS, leanchecker=(chk.tier == 'thorough'))
     code_broken = build_code_modules(chk) if not broken else []
+    for attempt in range(3):
+        if not ensure_generated():
+            break
+        # the generated file was replaced while the proofs were being built: what was built is not about this source
+        chk.count('degenerate', 'generated-file-replaced-during-build')
+        for k in ('obligations', 'discharged'):
+            chk.coverage[k] = 0
+        broken = chk.lean(PROP_MAIN, helper_files=HELPERS, leanchecker=False)
+        code_broken = build_code_modules(chk) if not broken else []
+    t_built = time.time()
     chk.coverage['broken_obligations'] = broken + code_broken
     drv = chk.get_driver()
     cfgline = drv.ask1('c16.cfg')
@@ -1227,13 +1487,13 @@ def run(chk, replay=None):
 
     # ---- 4. random histories
     nhist = 50 if quick else 220
-    budget = 100 if quick else 450
+    budget = 85 if quick else 540          # seconds for the random histories, counted from the end of the Lean build
     for k in range(nhist):
-        if time.time() - t0 > budget:
+        if time.time() - t_built > budget:
             chk.coverage['histories_cut_by_time_budget'] = nhist - k
             break
         nops = rng.randint(20, 45) if quick else (rng.randint(40, 90) if k % 6 else 200)
-        run_one('random-%d' % k, lambda h, n=nops: gen_history(chk, h, rng, n, heavy=not quick, deadline=t0 + budget))
+        run_one('random-%d' % k, lambda h, n=nops: gen_history(chk, h, rng, n, heavy=not quick, deadline=t_built + budget))
     chk.coverage['histories'] = k + 1
 
     # ---- 5. transforms: every expression under every kwargs set, twice, in random order
@@ -1256,6 +1516,22 @@ def run(chk, replay=None):
         k = transform_case(chk, R, drv, rng)
         if k:
             all_found.append(k)
+
+    # ---- 5b. symbol registry / contexts: interleavings of two circuits and expressions with clashing names
+    sym_disagree = []
+    fixed = [
+        [('declare', 'a', 'real'), ('delete', 'a'), ('use', 'a', 'positive'), ('use', 'a', 'real'), ('use', 'b', 'positive')],
+        [('use', 'a', 'real'), ('add', 1, ['a', 'b'], True), ('add', 2, ['a'], False), ('use', 'b', 'complex'), ('use', 'a', 'positive')],
+        [('add', 1, ['a'], True), ('declare', 'a', 'complex'), ('add', 2, ['a', 'b'], True), ('use', 'a', 'real'), ('use', 'b', 'real')],
+    ]
+    nsym = 40 if quick else 250
+    for k in range(nsym + len(fixed)):
+        for kind, item in symreg_case(chk, R, drv, rng, k, ops=(fixed[k] if k < len(fixed) else None)):
+            if kind == 'ce':
+                all_found.append(item)
+            else:
+                sym_disagree.append(item)
+    all_disagree.extend(sym_disagree)
 
     # ---- 6. hash seeds
     seeds = [0, 1, 2] if quick else [0, 1, 2, 3, 4, 5, 6, 7]
@@ -1282,7 +1558,10 @@ def run(chk, replay=None):
                 'add_restores_context_on_error': lambda k: k.get('kind') == 'context-leak',
                 'failed_add_detaches': lambda k: k.get('after') == 'failed-add' and k.get('kind') == 'node-count',
                 'fresh_refinement_with_failures_current': lambda k: k.get('after') == 'failed-add',
-                'failed_op_atomic_current': lambda k: k.get('after') == 'failed-add'}
+                'failed_op_atomic_current': lambda k: k.get('after') == 'failed-add',
+                'delete_cleans_kinds': lambda k: k.get('kind') == 'symbol-registry' and k.get('after') == 'symbol-delete',
+                'delete_resets_history_current': lambda k: k.get('kind') == 'symbol-registry' and k.get('after') == 'symbol-delete',
+                'contexts_share_symbols': lambda k: k.get('kind') == 'symbol-registry'}
     unmatched = [k for k in all_found if common.match_finding(chk.findings, k) is None]
     for b in allb:
         thm = b.split(':')[-1]
